@@ -31,6 +31,20 @@ Definition pheap : Type := list (list (Z * Z)).
     backing arrays afterwards ([None]: unchanged) *)
 Definition stage : Type := (nat * obs (list oissue) * option pheap)%type.
 
+(** file node: node.Range.Offset, node.Range.Length, section types *)
+Definition pfnode : Type := (Z * Z * list Z)%type.
+(** a step whose measured references are given per MeasuredData entry *)
+Definition rstep : Type := (option Z * option (list hpref) * list (list hpref) * list Z)%type.
+(** one run and what it returned; [post]: the backing arrays afterwards ([None]: unchanged).
+    [OIss k]: k = 0 ValidatorActorsAreProtected, otherwise ValidatorFinalCoverageIsComplete;
+    [ORefs]: state.MeasuredData.References() after SortAndMerge() (by artifact identity);
+    [OChain]: validator.All().Validate: the issues of the three validators in the
+    order returned ([inr]: StepIdx and identity of an issue of the log) *)
+Inductive opass :=
+| OIss (k : nat) (o : obs (list oissue)) (post : option pheap)
+| ORefs (o : obs (list oref)) (post : option pheap)
+| OChain (o : obs (list (oissue + Z * Z))) (post : option pheap).
+
 Inductive case : Type :=
 | CLog (arts : list part) (steps : list pstep)
        (files : option (list pref))          (* UEFIFiles(...).Data: references / error *)
@@ -41,7 +55,16 @@ Inductive case : Type :=
     chain of validator.All(), then again) *)
 | CHeap (arts : list part) (h0 : pheap) (steps : list hpstep)
         (files : option (list pref))
-        (stages : list stage) (o_vni : list (Z * Z)).
+        (stages : list stage) (o_vni : list (Z * Z))
+(** any sequence of runs over ONE log in ONE memory ([passes], in the order they
+    were made); the references of every MeasuredData entry of a step are kept
+    apart ([rstep]; MeasuredDataSlice.References() is part of the model); the
+    result of UEFIFiles(...).Data is computed by the model from the file nodes of
+    the parsed image ([files]: index of the image in the artifact table and every
+    *uefi.File node in visiting order; [None]: no image / it does not parse) *)
+| CRun (arts : list part) (h0 : pheap) (steps : list rstep)
+       (files : option (nat * list pfnode))
+       (passes : list opass) (o_vni : list (Z * Z)).
 
 Definition mk_art (p : part) : art :=
   let '(i, tn, raw, size) := p in mkArt i tn raw (repeat 0 (Z.to_nat size)).
@@ -101,8 +124,75 @@ Fixpoint check_stages (L : list hstep) (fl : outcome (list ref)) (h : heap)
       && check_stages L fl hp t
   end.
 
+Definition mk_fnode (p : pfnode) : fnode := let '(o, n, secs) := p in mkFN o n secs.
+Definition mk_rstep (tbl : list art) (sizes : list Z) (p : rstep) : hstep :=
+  let '(a, code, datas, iss) := p in
+  mkHS a (option_map (map (mk_lref tbl sizes)) code) (map (mk_lref tbl sizes) (mds_refs datas)) iss.
+
+Definition pass_of (fl : outcome (list ref)) (o : opass) : pass :=
+  match o with
+  | OIss O _ _ => PVap
+  | OIss _ _ _ => PVfc fl
+  | ORefs _ _ => PSm
+  | OChain _ _ => PAll fl
+  end.
+Definition post_of (o : opass) : option pheap :=
+  match o with OIss _ _ p => p | ORefs _ p => p | OChain _ p => p end.
+
+(** an issue of the actors validator is observed through its message text (type
+    names), one of the final-coverage validator through ErrNotFullCoverage *)
+Definition proj_chain (x : vissue + Z * Z) : oissue + Z * Z :=
+  match x with
+  | inl v => inl (proj_issue (if vi_kind v <=? 4 then proj_tn else proj_id) v)
+  | inr p => inr p
+  end.
+Definition centry_eqb (a b : oissue + Z * Z) : bool :=
+  match a, b with
+  | inl x, inl y => oissue_eqb x y
+  | inr x, inr y => pair_eqb x y
+  | _, _ => false
+  end.
+
+Definition pres_match (o : opass) (r : pres) : bool :=
+  match o, r with
+  | OIss k ob _, RIss m =>
+      obs_match (list_eqb oissue_eqb) ob (map_out (map (proj_issue (match k with O => proj_tn | _ => proj_id end))) m)
+  | ORefs ob _, RRefs m => obs_match (list_eqb oref_eqb) ob (map_out (map proj_id) m)
+  | OChain ob _, RChain m => obs_match (list_eqb centry_eqb) ob (map_out (map proj_chain) m)
+  | _, _ => false
+  end.
+Definition pres_ok (r : pres) : bool :=
+  match r with RIss (Ok _) => true | RRefs (Ok _) => true | RChain (Ok _) => true | _ => false end.
+
+(** Every run starts from the memory the previous one left (as observed).  The
+    slice-level model must reproduce what the run returned AND the memory
+    afterwards; the value-level model, applied to what the log reads as at that
+    moment, must reproduce what the run returned as well. *)
+Fixpoint check_passes (L : list hstep) (fl : outcome (list ref)) (h : heap) (ps : list opass) : bool :=
+  match ps with
+  | [] => true
+  | o :: t =>
+      let p := pass_of fl o in
+      let hp := match post_of o with None => h | Some a => mk_heap a end in
+      let '(h', r) := run_pass h L p in
+      pres_match o r
+      && (if pres_ok r then heap_eqb h' hp else true)
+      && pres_match o (vpass (val_log h L) p)
+      && check_passes L fl hp t
+  end.
+
 Definition check (c : case) : bool :=
   match c with
+  | CRun arts h0 steps files passes o_vni =>
+      let tbl := map mk_art arts in
+      let L := map (mk_rstep tbl (map (fun p : part => snd p) arts)) steps in
+      let h := mk_heap h0 in
+      let fl := match files with
+                | Some (i, nodes) => uefi_files (nth i tbl no_art) (map mk_fnode nodes)
+                | None => Err 1
+                end in
+      check_passes L fl h passes
+      && list_eqb pair_eqb o_vni (vni (val_log h L))
   | CHeap arts h0 steps files stages o_vni =>
       let tbl := map mk_art arts in
       let L := map (mk_hstep tbl (map (fun p : part => snd p) arts)) steps in
